@@ -1,11 +1,124 @@
+import SqlObjVerif.Lemmas.DdlCols
 import SqlObjVerif.Lemmas.DdlCat
 import SqlObjVerif.Lemmas.DdlStyle
-import SqlObjVerif.Model.Ddl
-import SqlObjVerif.Extracted.Ddl
+/-!
+# C14 — the generated schema matches the class declaration, in every dialect
+
+Property theorems only.  `Extracted.tables` is regenerated from `/repo` on every run; `skeleton` is the
+quote- and paren-aware reader of `Model/DdlRead.lean` (the specification side); `bs` is the reader's
+backslash convention (the statements hold for both where the dialect's literals double backslashes).
+-/
 namespace SqlObjVerif.Ddl
 
+/-- what the declaration says about one column -/
+def skelOf (st : Style) (col : Col) : ColSkel :=
+  ⟨col.db st, col.notNone || col.alternateID, col.unique.getD col.alternateID || col.alternateID, .none⟩
+
+/-- the auto-assigned key column: `PRIMARY KEY` (`NOT NULL PRIMARY KEY` on Firebird), `IDENTITY UNIQUE` on MSSQL / Sybase -/
+def idSkel (d : Dialect) (decl : Decl) : ColSkel :=
+  ⟨decl.idCol, (idFlags d).notNull, (idFlags d).unique, (idFlags d).key⟩
+
+/-- The tables extracted from the current source pass the decidable reader-compatibility check
+    (every type name / keyword / template is a self-contained fragment without stray keywords). -/
+theorem C14_extracted_tables_ok (bs : Bool) : TablesOK bs Extracted.tables := tablesOK_extracted bs
+
+/-- **C14 (text level).**  For every dialect, server capability, reader convention compatible with the
+    dialect's literals, and every well-formed declaration (any number of columns of any modelled kind, any
+    enum values), the skeleton read from the generated CREATE TABLE text is the key column followed by the
+    declared columns, in declaration order, under their db names, NOT NULL ⇔ notNone ∨ alternateID,
+    UNIQUE ⇔ unique ∨ alternateID, no key marker on them.  (MaxDB foreign keys — a column item followed by
+    a table-level `FOREIGN KEY` item — included; `h` only excludes what the renderer itself refuses:
+    EnumCol on MaxDB, an EnumCol without values.) -/
+theorem C14_skeleton_eq_declaration (d : Dialect) (c : Caps) (bs : Bool) (decl : Decl)
+    (hbs : bsOK bs (litDb Extracted.tables d)) (hwf : declWF bs decl = true)
+    (text : Str) (h : createTableSQL Extracted.tables d c decl = some text) :
+    skeleton bs text = idSkel d decl :: decl.cols.map (skelOf decl.style) :=
+  skeleton_eq_declaration (tablesOK_extracted bs) d c decl hbs hwf text h
+
+/-- the same for ANY table set that passes the check: an edit of a type name in the source keeps the
+    theorem as long as `TablesOK` still decides to true for the regenerated tables -/
+theorem C14_skeleton_eq_declaration_any_tables (T : Tables) (bs : Bool) (hT : TablesOK bs T) (d : Dialect) (c : Caps)
+    (decl : Decl) (hbs : bsOK bs (litDb T d)) (hwf : declWF bs decl = true)
+    (text : Str) (h : createTableSQL T d c decl = some text) :
+    skeleton bs text = idSkel d decl :: decl.cols.map (skelOf decl.style) :=
+  skeleton_eq_declaration hT d c decl hbs hwf text h
+
+/-- with the plain reader (`bs = false`) no condition on the dialect is needed -/
+theorem C14_skeleton_eq_declaration_plain_reader (d : Dialect) (c : Caps) (decl : Decl)
+    (hwf : declWF false decl = true) (text : Str)
+    (h : createTableSQL Extracted.tables d c decl = some text) :
+    skeleton false text = idSkel d decl :: decl.cols.map (skelOf decl.style) :=
+  skeleton_eq_declaration (tablesOK_extracted false) d c decl (by intro h; cases h) hwf text h
+
+/-- an enum value, whatever characters it contains, is one opaque literal for the reader -/
+theorem C14_enum_value_is_opaque (bs : Bool) (l : LitDb) (h : bsOK bs l) (v : Str) : Inner bs (sqlLit l v) :=
+  inner_lit bs l h v
+
+/-! ### foreign keys -/
+
+def actionOf : Cascade → Action
+  | .none => .none | .cascade => .cascade | .restrict => .restrict | .setNull => .setNull
+
+/-- the extracted ON DELETE texts (used by the sqlite column clause and the mysql / postgres ALTER TABLE
+    statements) read back as the declared cascade setting -/
+theorem C14_fk_action_matches_cascade (bs : Bool) (cas : Cascade) :
+    (fragCheck bs (Extracted.tables.fkAction cas)).map readAction = some (actionOf cas) := by
+  cases bs <;> cases cas <;> decide +kernel
+
+/-! ### link tables -/
+
+/-- exactly one class of a many-to-many pair (distinct class names) creates the link table -/
 theorem C14_join_table_once {a b : Name} (h : a ≠ b) :
     (createsLink a b = true ∧ createsLink b a = false) ∨ (createsLink a b = false ∧ createsLink b a = true) :=
   join_once_distinct h
+
+/-- full statement "a class that declares a RelatedJoin gets its link table created" is false: the creating
+    side is chosen by class-name order even when only the later class declares the join -/
+theorem C14_join_declared_is_created_full_FALSE : ¬ (∀ a b : Name, createsLink a b = true) := by
+  intro h
+  exact absurd (h [90, 101, 100] [65, 108, 112, 104, 97]) (by decide)
+
+theorem C14_join_declared_is_created_partial {a b : Name} (h : pyLt b a = false) : createsLink a b = true := by
+  simp [createsLink, h]
+
+/-! ### create-if-missing / drop-if-present over the catalogue model -/
+
+theorem C14_create_if_missing_idempotent {r : Req} {c c1 : Cat} (h : createTable true r c = .ok c1) :
+    createTable true r c1 = .ok c1 := create_if_missing_idempotent h
+
+theorem C14_drop_if_present_idempotent {r : Req} {c c1 : Cat} (h : dropTable true r c = .ok c1) :
+    dropTable true r c1 = .ok c1 := drop_if_present_idempotent h
+
+theorem C14_drop_after_create_restores {r : Req} {c c1 c2 : Cat} (h1 : createTable false r c = .ok c1)
+    (h2 : dropTable false r c1 = .ok c2) : ∀ t, t ∈ c2.tables ↔ t ∈ c.tables := drop_after_create h1 h2
+
+/-! ### addColumn / delColumn with changeSchema -/
+
+theorem C14_add_column_preserves_others {t : Tbl} {c c' : Name} (h : c' ≠ c) (i : Nat) :
+    ((addColumn t c).rows[i]?).map (get · c') = (t.rows[i]?).map (get · c') := add_preserves_others t h i
+
+theorem C14_del_column_preserves_others {t : Tbl} {c c' : Name} (h : c' ≠ c) (hc : c' ∈ t.cols) (i : Nat) :
+    ((delColumn t c).rows[i]?).map (get · c') = (t.rows[i]?).map (get · c') := del_preserves_others t h hc i
+
+theorem C14_add_del_column_cols {t : Tbl} {c : Name} :
+    (addColumn t c).cols = t.cols ++ [c] ∧ (delColumn t c).cols = t.cols.filter (· ≠ c) := ⟨add_cols t c, del_cols t c⟩
+
+/-! ### Style name mapping -/
+
+theorem C14_style_roundtrip {s : List Nat} (h : Camel s = true) : underToMixed (mixedToUnder s) = s := style_roundtrip h
+
+theorem C14_style_mixedToUnder_injective {a b : List Nat} (ha : Camel a = true) (hb : Camel b = true)
+    (h : mixedToUnder a = mixedToUnder b) : a = b := style_mixedToUnder_injective ha hb h
+
+theorem C14_style_fk_column_name {s : List Nat} (hne : s ≠ []) (hID : endsWith s [73, 68] = false) :
+    mixedToUnder (s ++ [73, 68]) = mixedToUnder s ++ [95, 105, 100] := style_fk_name hne hID
+
+theorem C14_style_db_names_are_identifiers {s : List Nat} (hs : ∀ c ∈ s, isIdentC c = true) :
+    ∀ c ∈ mixedToUnder s, isLowIdentC c = true := style_under_identchars hs
+
+/-! ### Non-vacuity -/
+example : fragCheck false [39, 97, 44, 32, 78, 79, 84, 32, 78, 85, 76, 76, 39] = some [.str] := by decide
+example : (fragCheck true Extracted.tables.kwNotNull) = some [.w kwNOT, .w kwNULL] := by decide +kernel
+example : createsLink [65] [66] = true ∧ createsLink [66] [65] = false := by decide
 
 end SqlObjVerif.Ddl
